@@ -230,6 +230,42 @@ pub fn run(ctx: &mut Ctx, rep: &mut Report) {
         }
     }
 
+    // ---------------------------------------------------------------- score on exact-capacity buffers
+    if ctx.wants("score_exact") {
+        rep.space(
+            "score_exact",
+            "f32 and u8 scoring of striped sequences WITHOUT spare row capacity (a clone of a configured sequence; a sequence from StripedSequence::sample then configured):              any read one row past the matrix leaves the allocation. Lengths 0..=70 and around 96/128/992/1024/1056, widths {1,2,8,15,34}, DNA and protein, generic / sse2 / avx2 / dispatcher arms, full scan and last-row range",
+        );
+        for len in lens_boundary() {
+            if len > 1100 {
+                continue;
+            }
+            for m in [1usize, 2, 8, 15, 34] {
+                for alpha in 0..2 {
+                    let mine = ctx.mine(idx);
+                    idx += 1;
+                    if !mine {
+                        continue;
+                    }
+                    let a = if alpha == 0 { "dna" } else { "protein" };
+                    if !crumb(|| wrap("C06", json!({"kind": "score_exact", "alphabet": a, "len": len, "m": m}))) {
+                        continue;
+                    }
+                    rep.eval_distinct(len >= m);
+                    let r = catch(|| if alpha == 0 { score_exact_case::<Dna>(len, m) } else { score_exact_case::<Protein>(len, m) });
+                    if let Err(msg) = r {
+                        memory_panic(rep, "C06", "score_exact", &msg, || json!({"kind": "score_exact", "alphabet": a, "len": len, "m": m}));
+                    }
+                    if alpha == 0 {
+                        if let Err(msg) = catch(|| score_exact_u8(len, m)) {
+                            memory_panic(rep, "C06", "score_exact_u8", &msg, || json!({"kind": "score_exact", "alphabet": a, "len": len, "m": m}));
+                        }
+                    }
+                }
+            }
+        }
+    }
+
     // ---------------------------------------------------------------- gather (thin menus for the slow monitor)
     if ctx.only.is_some() && ctx.wants("gather") {
         rep.space(
@@ -539,6 +575,72 @@ impl rand::RngCore for Lcg {
     }
 }
 
+fn score_exact_case<A: Alphabet>(len: usize, m: usize)
+where
+    lightmotif::pli::Pipeline<A, lightmotif::pli::dispatch::Dispatch>: lightmotif::pli::Score<f32, A, U32>,
+{
+    use lightmotif::pli::platform::{Avx2, Generic, Sse2};
+    use lightmotif::pli::{Pipeline, Score, Stripe};
+    use lightmotif::scores::StripedScores;
+    let k = model::k_of::<A>();
+    let pssm = model::scoring::<A>(&c01::make_matrix("int", m, k, 0));
+    let syms = model::to_symbols::<A>(&model::digit_pattern_wild(len, k, 1, 2));
+    let mut base: StripedSequence<A, U32> = Pipeline::<A, Generic>::generic().stripe(&syms);
+    base.configure(&pssm);
+    // (1) a clone has exactly rows() capacity; (2) a sampled sequence is created without spare rows
+    let mut sampled: StripedSequence<A, U32> = StripedSequence::sample(Lcg(len as u64 + 3), Background::<A>::uniform(), len);
+    sampled.configure(&pssm);
+    let mut fresh_clone = base.clone();
+    fresh_clone.configure_wrap(m.max(1) - 1);
+    for seq in [base.clone(), sampled, fresh_clone] {
+        let rows = seq.matrix().rows() - seq.wrap();
+        let mut scores = StripedScores::<f32, U32>::empty();
+        let g = Pipeline::<A, Generic>::generic();
+        g.score_into(&pssm, &seq, &mut scores);
+        let s2 = Pipeline::<A, Sse2>::sse2().unwrap();
+        s2.score_into(&pssm, &seq, &mut scores);
+        let av = Pipeline::<A, Avx2>::avx2().unwrap();
+        av.score_into(&pssm, &seq, &mut scores);
+        if rows > 0 {
+            av.score_rows_into(&pssm, &seq, rows - 1..rows, &mut scores);
+            s2.score_rows_into(&pssm, &seq, rows - 1..rows, &mut scores);
+        }
+        for arm in cfgs::FORCED {
+            cfgs::with_arm(arm, || {
+                let d = Pipeline::<A, lightmotif::pli::dispatch::Dispatch>::dispatch();
+                d.score_into(&pssm, &seq, &mut scores);
+            });
+        }
+        std::hint::black_box(&scores);
+    }
+}
+
+fn score_exact_u8(len: usize, m: usize) {
+    use lightmotif::pli::platform::{Avx2, Generic};
+    use lightmotif::pli::{Pipeline, Score, Stripe};
+    use lightmotif::scores::StripedScores;
+    let pssm = model::scoring::<Dna>(&c01::make_matrix("int", m, 5, 0));
+    let dm = pssm.to_discrete();
+    let syms = model::to_symbols::<Dna>(&model::digit_pattern_wild(len, 5, 1, 2));
+    let mut base: StripedSequence<Dna, U32> = Pipeline::<Dna, Generic>::generic().stripe(&syms);
+    base.configure(&pssm);
+    let seq = base.clone();
+    let rows = seq.matrix().rows() - seq.wrap();
+    let mut scores = StripedScores::<u8, U32>::empty();
+    Pipeline::<Dna, Avx2>::avx2().unwrap().score_into(&dm, &seq, &mut scores);
+    Pipeline::<Dna, Generic>::generic().score_into(&dm, &seq, &mut scores);
+    if rows > 1 {
+        Pipeline::<Dna, Avx2>::avx2().unwrap().score_rows_into(&dm, &seq, 1..rows, &mut scores);
+    }
+    for arm in cfgs::FORCED {
+        cfgs::with_arm(arm, || {
+            let d = Pipeline::<Dna, lightmotif::pli::dispatch::Dispatch>::dispatch();
+            d.score_into(&dm, &seq, &mut scores);
+        });
+    }
+    std::hint::black_box(&scores);
+}
+
 fn stripe_reuse_case(cfg: SCfg, l1: usize, l2: usize) {
     let s1 = model::to_symbols::<Dna>(&model::digit_pattern(l1, 5, 0));
     let s2 = model::to_symbols::<Dna>(&model::digit_pattern(l2, 5, 1));
@@ -600,6 +702,21 @@ pub fn replay(ctx: &mut Ctx, rep: &mut Report, v: &Value) {
         "C19" => c19::replay(ctx, &mut scratch, case),
         _ => {
             rep.space("replay", "replay");
+            if case["kind"].as_str() == Some("score_exact") {
+                let (len, m) = (case["len"].as_u64().unwrap() as usize, case["m"].as_u64().unwrap() as usize);
+                let dna = case["alphabet"].as_str() == Some("dna");
+                let r = catch(|| {
+                    if dna {
+                        score_exact_case::<Dna>(len, m);
+                        score_exact_u8(len, m);
+                    } else {
+                        score_exact_case::<Protein>(len, m)
+                    }
+                });
+                if let Err(msg) = r {
+                    memory_panic(rep, "C06", "score_exact", &msg, || case.clone());
+                }
+            }
             if case["kind"].as_str() == Some("stripe_reuse") {
                 let cfg = SCfg::from_name(case["cfg"].as_str().unwrap()).unwrap();
                 let (l1, l2) = (case["l1"].as_u64().unwrap() as usize, case["l2"].as_u64().unwrap() as usize);
